@@ -184,9 +184,8 @@ Proof.
   destruct (hd_pick ch) as [c ch0].
   destruct (sb_send (set_sess y s se) s _ c) as [[y2 e2] rc2] eqn:Es.
   pose proof (sb_send_CIs _ _ _ _ _ _ _ Es Hc1) as Hc2.
-  destruct (rc2 =? 0).
-  - destruct (close_all y2 s) as [y3 e3] eqn:Eca. injection H as <- <- <- <-. eapply close_all_CIs; eauto.
-  - destruct (rc2 =? 1); injection H as <- <- <- <-; exact Hc2.
+  destruct (close_all y2 s) as [y3 e3] eqn:Eca. pose proof (close_all_CIs _ _ _ _ Eca Hc2) as Hc3.
+  destruct (rc2 =? 0); [|destruct (rc2 =? 1)]; injection H as <- <- <- <-; exact Hc3.
 Qed.
 
 (* ---- sending a frame of a stream ---- *)
